@@ -163,7 +163,7 @@ fn build(c: &Case) -> Result<Built, String> {
         if let Some(t) = w.payment(p, &node_key, &k2.public, 500 + i as u64, 0, ts) {
             txs.push(t);
         }
-        if let Some(t) = w.payment(p, &k2, &k1.public, 70 + i as u64, 0, ts) {
+        if let Some(t) = w.payment_newest(p, &k2, &key(5).public, 70 + i as u64, 0, ts) {
             txs.push(t);
         }
         let gt = if id % 2 == 0 { Some(key(0)) } else { None };
@@ -184,7 +184,8 @@ fn build(c: &Case) -> Result<Built, String> {
         }
         let id = w.blocks[p].id + 1;
         let mut txs = vec![];
-        if let Some(t) = w.payment(p, &k1, &node_key.public, 900 + i as u64, 0, ts) {
+        // each candidate block spends the change output created by the previous one
+        if let Some(t) = w.payment_newest(p, &k1, &node_key.public, 900 + i as u64, 0, ts) {
             txs.push(t);
         }
         let gt = if id % 2 == 0 && c.kind != Bad::GtDensity { Some(key(0)) } else { None };
